@@ -183,7 +183,7 @@ Theorem init_retains_failed w dir e :
 Proof.
   intros Hin Hwf Hnd Hf Hfail x x'. subst x x'.
   assert (Hd : In (de_id e) (ids_of dir)).
-  { eapply in_todo_in_dir. apply in_ids_of. exists e. auto. }
+  { apply (in_todo_in_dir w dir). apply in_ids_of. exists e. split; [exact Hin|reflexivity]. }
   rewrite (init_never_deletes_listed repaired w dir _ Hd).
   rewrite (provision_all_in repaired _ w e (todo_nodup w dir) Hin).
   unfold provision1 in *. destruct (de_bad e); [simpl; auto|].
@@ -212,9 +212,15 @@ Proof.
   destruct (x =? b) eqn:E; [apply Nat.eqb_eq in E; auto|right; apply IH; exact Ec].
 Qed.
 
+Lemma filter_all {A} (P : A -> bool) l : (forall x, In x l -> P x = true) -> filter P l = l.
+Proof.
+  induction l as [|a r IH]; intros H; simpl; [reflexivity|].
+  rewrite (H a (or_introl eq_refl)). f_equal. apply IH. intros x Hx. apply H. right. exact Hx.
+Qed.
+
 Lemma clean_todo w dir : clean_dir w dir -> todo w dir = dir.
 Proof.
-  intros [Hnd Hall]. unfold todo. apply forallb_filter_id. apply forallb_forall. intros e He.
+  intros [Hnd Hall]. unfold todo. apply filter_all. intros e He.
   destruct (Hall e He) as [_ [_ [_ [Ha _]]]]. rewrite Ha. unfold dup.
   pose proof (nodup_count1 (de_id e) _ Hnd) as Hc. destruct (1 <? count (de_id e) (ids_of dir)) eqn:E; [|reflexivity].
   apply Nat.ltb_lt in E. lia.
